@@ -66,8 +66,10 @@ def draw_case(dec, p="cfg", thorough=False, want_tab=None):
     cfg["stub"] = bool(dec.chance(f"{p}/stubcalc", 1, 2)) and not cfg["use_irred_kpt"]
     cfg["tab"] = bool(dec.chance(f"{p}/tab", 1, 2)) if want_tab is None else want_tab
     cfg["tab_q"] = [["Energy", "berry"], ["Energy", "vel"], ["Energy", "berry", "vel"], ["Energy", "invmass"]][
-        dec(f"{p}/tab_q", 4 if thorough else 3)]
-    cfg["ibands"] = None if dec.chance(f"{p}/allbands", 2, 3) else [0]
+        dec.pick(f"{p}/tab_q", [3, 3, 2, 2])]
+    nb = cfg.get("num_wann", 2)
+    # band selections: all, the first, unsorted non-contiguous (values must come back in the order asked for), last only
+    cfg["ibands"] = [None, [0], [nb - 1, 0], [nb - 1]][dec.pick(f"{p}/bands", [4, 2, 2, 1])]
     return cfg
 
 
